@@ -29,10 +29,10 @@ ASSUMPTIONS = ['A-IO: the reader delivers the whole file (after the leading comm
                'vcf_header.py regular-expression parsing is not modelled: the INFO declarations (key, type, scalar/list) are case inputs',
                'SequenceID columns are compared as text (NUL padding of the fixed-width string array is not modelled)',
                'missing values: the library represents a missing Optional[int] as 0 and a missing Optional[float] as NaN; the specification adopts that representation']
-PARTIAL = ['identifier (SequenceID) columns of delimited formats are proved correct when some text of the column is non-empty (C02_sid_partial; all-empty: C02_sid_all_empty_refuted, finding C02-sid-all-empty)',
-           'C02_optint_refuted / C02_intlist_refuted / C02_info_short_refuted record what was false of the code before the repairs now in /repo; the positive theorems (C02_optint_fixed_correct, C02_intlist_fixed_correct, C02_info_*_correct) are about the repaired code the model follows',
-           'end-to-end theorems: BED3/6/12, chrom.sizes, pairs, GFA, GTF, VCF fixed columns with undeclared INFO (C02_delimited_end_to_end), SAM on LF files (C02_sam_end_to_end), FASTQ and two-line FASTA (LF and CRLF); bedGraph / narrowPeak column-wise without the float columns (C02_delimited_columns)',
-           'correspondence only: float columns (exact-rational model within 2^-50), wrapped FASTA, GFF3 / wig interior-comment deletion, list-valued and Float INFO keys and the Flag lookup, genotype matrices, CRLF for SAM / GFF3 / wig (recorded findings)']
+PARTIAL = ['C02_optint_refuted / C02_intlist_refuted / C02_info_short_refuted / C02_sid_all_empty_refuted record what was false of the code before the repairs now in /repo (the last one about sid_col_pinned); the positive theorems (C02_optint_fixed_correct, C02_intlist_fixed_correct, C02_info_*_correct, C02_sid_correct) are about the repaired code the model follows',
+           'end-to-end theorems: BED3/6/12, chrom.sizes, pairs, GFA, GTF, VCF fixed columns with undeclared INFO (C02_delimited_end_to_end), SAM on LF and CRLF files (C02_sam_end_to_end), FASTQ and two-line FASTA (LF and CRLF); bedGraph / narrowPeak column-wise without the float columns (C02_delimited_columns); genotype string cells (C02_padded_cell_correct); INFO String / scalar Integer / Flag keys',
+           'correspondence only: float columns (exact-rational model within 2^-50), wrapped FASTA, GFF3 / wig interior-comment deletion, list-valued and Float INFO keys, genotype code matrices; open findings: CRLF for GFF3 / wig, interior comment lines containing a TAB (repairs proposed: notes/C02.fix-4.diff, notes/C02.fix-5.diff)',
+           'not modelled (ill-formed input only): the reader\'s "incomplete entry at the end of the file" check (parser.py 03a5b64) and the order of FASTQ validation messages']
 PER_FILE = 40
 
 # ----------------------------------------------------------------------------- formats
@@ -279,8 +279,14 @@ FAMILIES = [['G5', 'G5A'], ['PM', 'PMC'], ['DB', 'DBID'], ['A', 'AA', 'AAA'], ['
 TYPES = ['Integer', 'Integer', 'Float', 'Flag', 'Flag', 'String']
 
 
-def _decl(g):
+def _decl(g, fixed_keys=None):
     r = g.r
+    if fixed_keys:
+        out = []
+        for k in fixed_keys:
+            typ = r.choice(TYPES)
+            out.append([k, typ, False if typ == 'Flag' else (r.random() < 0.4)])
+        return out
     if r.random() < 0.5:
         # a whole family (or two), each member typed independently: Flag vs Flag, Flag vs valued, valued vs valued
         keys = []
@@ -342,7 +348,8 @@ def _mk(rng, fmt, n, W, crlf=False, final_newline=True, **kw):
         opts['p_absent'] = 0.05     # very short INFO columns are finding C02-info-short-buffer: keep them a minority
     case = dict(fmt=fmt, crlf=crlf, final_newline=final_newline, header=[], comments={}, decl=None, width=0)
     if fmt in VCFS:
-        decl = _decl(g) if opts.pop('declared', True) else None
+        fixed_keys = opts.pop('decl_keys', None)
+        decl = _decl(g, fixed_keys) if opts.pop('declared', True) else None
         opts['decl'] = decl
         case['decl'] = decl
         if fmt != 'vcf':
@@ -412,6 +419,14 @@ def generate(tier, seed):
         for fmt in ('bed3', 'sizes', 'bed6', 'bed12', 'bdg', 'npk', 'gtf', 'pairs', 'sam', 'vcf'):
             for W in (10, 15):
                 cases.append(_mk(rng, fmt, rng.randint(2, 5), W, crlf=(rep % 2 == 1), boundary=True))
+    # the same INFO key NAMES declared with different types / multiplicities in different files read by one process
+    # (classes derived from the header must not be shared between such files)
+    # (cases are dealt round-robin to 16 worker processes: 48 of them put three such files into every process)
+    for rep in range(48 * (1 if tier == 'quick' else 2)):
+        cases.append(_mk(rng, 'vcf', rng.randint(1, 2), 3, crlf=False, declared=True, decl_keys=['DP', 'AF', 'DB'], p_absent=0.2, p_dot=0))
+    # wrapped FASTA with CRLF line ends whose last line has no line break (the reader appends a bare LF)
+    for rep in range(4 * reps):
+        cases.append(_mk(rng, 'fasta', rng.randint(1, 4), rng.choice([4, 9, 30]), crlf=True, final_newline=False))
     # SAM with CRLF line ends (repaired in /repo 6bbd290): with and without tags, last record with / without final line break
     for rep in range(4 * reps):
         for p_tags in (0, 0.5, 1):
